@@ -25,20 +25,24 @@ def worker(k, ids):
     rc, out = sh('./check setup', cwd=v, env=env)
     assert rc == 0, out[-2000:]
     for sid in ids:
-        d = os.path.join(ROOT, 'seeded', sid)
+        benign = sid[0] in 'HK'
+        d = os.path.join(ROOT, 'seeded', 'benign', sid) if benign else os.path.join(ROOT, 'seeded', sid)
         meta = json.load(open(os.path.join(d, 'meta.json')))
-        prop = meta['property']
+        plist = (meta.get('touches_properties') or []) if benign else [meta['property']]
         sh('git -C %s checkout -- . && git -C %s clean -fdq' % (r, r))
         rc, out = sh('git -C %s apply %s/patch.diff' % (r, d))
-        if rc != 0:
-            res = {prop: dict(exit=None, violation_lines=[], wall_s=0, note='the patch no longer applies to the current library: ' + out.strip()[-300:])}
-        else:
+        res = {}
+        for prop in plist:
+            if rc != 0:
+                res[prop] = dict(exit=None, violation_lines=[], wall_s=0, note='the patch no longer applies to the current library: ' + out.strip()[-300:])
+                continue
             t0 = time.time()
-            rc, out = sh('./check %s --tier quick' % prop, cwd=v, env=env)
-            lines = [l.replace(v, '/verif') for l in out.split('\n') if l.startswith('VIOLATION') or l.startswith('KNOWN-FINDING')]
-            res = {prop: dict(exit=rc, violation_lines=lines[:4], wall_s=round(time.time() - t0, 1), tail=out[-300:] if rc not in (0, 1) else '')}
+            rc2, out2 = sh('./check %s --tier quick' % prop, cwd=v, env=env)
+            lines = [l.replace(v, '/verif') for l in out2.split('\n') if l.startswith('VIOLATION') or l.startswith('KNOWN-FINDING')]
+            res[prop] = dict(exit=rc2, violation_lines=lines[:4], wall_s=round(time.time() - t0, 1), tail=out2[-300:] if rc2 not in (0, 1) else '')
+            print(sid, prop, res[prop]['exit'], len([l for l in res[prop]['violation_lines'] if l.startswith('VIOLATION')]),
+                  len([l for l in res[prop]['violation_lines'] if l.startswith('VIOLATION') and 'no-failing-input-found' not in l]), res[prop]['wall_s'], flush=True)
         json.dump(res, open(os.path.join(d, 'result.json'), 'w'), indent=1)
-        print(sid, prop, res[prop]['exit'], len([l for l in res[prop]['violation_lines'] if l.startswith('VIOLATION')]), res[prop]['wall_s'], flush=True)
     sh('git -C %s checkout -- .' % r)
     sh('git -C /repo worktree remove --force %s; git -C %s worktree remove --force %s; rm -rf %s' % (r, ROOT, v, base))
 
@@ -48,7 +52,7 @@ def main():
     n = 4
     if args and args[0] == '-j':
         n = int(args[1]); args = args[2:]
-    ids = args or sorted(os.path.basename(d) for d in glob.glob(os.path.join(ROOT, 'seeded', 'C*-[A-Z]')))
+    ids = args or sorted(os.path.basename(d) for d in glob.glob(os.path.join(ROOT, 'seeded', 'C*-[A-Z]')) + glob.glob(os.path.join(ROOT, 'seeded', 'benign', '[HK]*')))
     shares = [ids[k::n] for k in range(n)]
     with ThreadPoolExecutor(max_workers=n) as ex:
         list(ex.map(lambda a: worker(*a), enumerate(shares)))
